@@ -2,7 +2,9 @@
    Statements only; proofs live in Proofs/StrictReaderProofs.v (about the specification reader)
    and Proofs/SaveStrictProofs.v (about the model of the writer, Model/Save.v). *)
 From LV Require Import Base.Bytes Base.Sx Model.Obj Model.Writer Model.Save Proofs.SaveProofs
-  Spec.StrictReader Proofs.StrictReaderProofs Proofs.SaveStrictProofs.
+  Spec.StrictReader Proofs.StrictReaderProofs Proofs.SaveStrictProofs
+  Proofs.ObjectRtProofs Spec.SaveSpec Proofs.StrictObjectProofs Proofs.StrictFileProofs Proofs.StrictTilingProofs
+  Proofs.StrictLoadProofs Proofs.StrictLoadStreamProofs Proofs.StrictSaveProofs.
 
 Local Open Scope N_scope.
 
@@ -168,23 +170,22 @@ Theorem C03_save_objects_all_listed :
                      p_objhdr (at_off (so_bytes (save xt d)) off) = Some (id, g, rest).
 Proof. exact save_objects_all_listed. Qed.
 
-(* (2.5) stream Length.  PARTIAL: the hypothesis is the object-level round trip of the stream
-   DICTIONARY through the strict tokenizer (proved here for no class of dictionaries; it is what
-   the run-time tie checks on every generated object).  Given it, and Length = |content| (direct or
-   resolved), the strict reader takes exactly the saved content between "stream" LF and LF "endstream",
-   also when the content itself contains "endstream". *)
-Theorem C03_save_stream_length_partial :
-  forall resolve id d c rest,
-    p_object (write_dictionary d ++ stream_tail c rest) = Some (ODict d, stream_tail c rest) ->
-    length_value resolve d = Some (blen c) ->
-    p_objbody resolve id (x0a :: write_dictionary d ++ stream_tail c rest) = SOk (OStream d c, skip_sp rest).
-Proof. exact save_stream_length_exact. Qed.
+(* (2.5) an indirect object.  What the writer prints after "id gen obj" LF for ANY object of the domain
+   (a well-formed direct object, or a stream whose Length entry is the length of its content) is read
+   by the strict reader's object-body parser as the normal form of that object; for a stream exactly
+   Length bytes are taken between "stream" LF and LF "endstream", also when the content itself contains
+   "endstream" / "endobj".  [obj_tail o rest] = separator, write_object o, end separator, LF endobj LF rest. *)
+Theorem C03_save_indirect_object :
+  forall resolve id o rest,
+    top_wf o ->
+    p_objbody resolve id (x0a :: obj_tail o rest) = SOk (norm_obj o, skip_sp rest).
+Proof. exact objbody_rt. Qed.
 
-(* (2.6) the whole-file statement  strict_load (save x d) = SOk (sdoc_of d)  is NOT proved in general
-   (missing: object-level round trip of the strict tokenizer against Writer.write_object, the
-   composition of the pieces above through read_section / read_all, and the span arithmetic of the
-   tiling).  Concrete instances, both formats, by computation -- they also serve as non-vacuity of
-   the hypotheses of (2.3)-(2.5): *)
+Theorem C03_save_object_header :
+  forall id g o rest, p_objhdr (write_indirect_object id g o ++ rest) = Some (id, g, x0a :: obj_tail o rest).
+Proof. exact wio_objhdr. Qed.
+
+(* (2.6) concrete instances, both formats, by computation (the general theorem is Part 3) *)
 Definition ex_doc : doc := {|
   d_version := bs "1.5";
   d_binary_mark := [xbb; xad; xc0; xde];
@@ -209,6 +210,90 @@ Theorem C03_example_stream :
             s_trailer s = d_trailer (so_doc (save XStream ex_doc)) /\ s_stream s = true.
 Proof. split; [reflexivity|]. eexists. split; [vm_compute; reflexivity|]. repeat split; vm_compute; reflexivity. Qed.
 
+(* ------------------------------------------------------------------------------------------ *)
+(* Part 3: the general theorems about the writer model (claim-ladder rungs 2-3).                 *)
+(* ------------------------------------------------------------------------------------------ *)
+
+(* (3.1) object level: for every well-formed direct object (integers in i64, reals = Display text of a
+   finite f32, unique dictionary keys, reference numbers u32/u16; any bytes in names, strings, keys; any
+   nesting depth) the strict tokenizer reads  write_object o ++ rest  back as (norm_obj o, rest), when
+   rest satisfies the follow condition of the token kind [sfollow] (a keyword, name, number or reference
+   must be followed by a non-regular byte; a number must not be followed by "g R").  norm_obj turns an
+   integral real below 2^63 into the integer it denotes and changes nothing else. *)
+Theorem C03_object_rt :
+  forall o rest,
+    obj_wf o -> sfollow o rest -> p_object (write_object o ++ rest) = Some (norm_obj o, rest).
+Proof. exact strict_p_object_rt. Qed.
+
+(* the separator rule of the writer is sufficient for the strict tokenizer: what it emits between two
+   array elements / after a key / before the next key keeps the continuation condition *)
+Theorem C03_separator_suffices :
+  forall x rest, obj_wf x -> scont rest -> scont (sp_if (need_separator x) ++ write_object x ++ rest).
+Proof. exact scont_elem. Qed.
+
+(* (3.2) MAIN: the strict reader accepts every saved file and recovers exactly what was saved, both
+   cross-reference formats.  [sdoc_of x d] is explicit (Proofs/StrictLoadProofs.v sdoc_table,
+   Proofs/StrictLoadStreamProofs.v sdoc_stream): version, objects = normal forms, trailer, the
+   cross-reference entries (table: entry 0 free 65535 + one in-use entry per object with the exact offset;
+   stream: the same in-use entries + the stream's own entry), the object located by each entry, the spans.
+   Hypotheses = the domain: [strict_savable] (C01's savable: distinct ascending object numbers >= 1,
+   generations <= 65535, well-formed objects, stream Length = |content|, no skipped types, valid binary mark,
+   no Prev/Encrypt in the trailer, max(max_id, largest number) + 2 < 2^32; plus version "d.d" and a binary
+   mark of at least 4 bytes) and a file below 4 GiB (the writer keeps offsets in a u32). *)
+Theorem C03_strict :
+  forall x d,
+    strict_savable d -> small_file x d ->
+    strict_load (so_bytes (save x d)) = SOk (sdoc_of x d).
+Proof. exact strict_load_save. Qed.
+
+Theorem C03_strict_fields :
+  forall x d,
+    strict_savable d -> small_file x d ->
+    exists s, strict_load (so_bytes (save x d)) = SOk s /\
+      s_version s = d_version d /\
+      s_objects s = norm_objects (d_objects d) /\
+      s_trailer s = norm_dict (d_trailer (so_doc (save x d))) /\
+      s_revisions s = 1 /\
+      s_stream s = (match x with XTable => false | XStream => true end) /\
+      s_startxref s = blen (body_of d).
+Proof. exact strict_load_save_fields. Qed.
+
+(* (3.3) every byte of every saved file lies in exactly one span: the spans the strict reader counted
+   (header, one per object "id gen obj .. endobj LF", the cross-reference section, the startxref marker)
+   are consecutive from 0 to |file|, they cover every position and do not overlap *)
+Theorem C03_all_bytes_accounted :
+  forall x d,
+    strict_savable d -> small_file x d ->
+    let file := so_bytes (save x d) in
+    let spans := effective (0, 0) (s_spans (sdoc_of x d)) in
+    chain 0 spans (lenN file) /\
+    (forall p, p < lenN file -> exists a b, In (a, b) spans /\ a <= p < b) /\
+    (forall i j a b a' b', (i < j)%nat -> nth_error spans i = Some (a, b) -> nth_error spans j = Some (a', b') -> b <= a').
+Proof. exact all_bytes_accounted. Qed.
+
+(* the same theorems about the pipeline after its first statement (max_id already raised), which is what
+   the incremental writer shares *)
+Theorem C03_strict_core_table :
+  forall d, strict_savable_core d -> small_file_core XTable d ->
+    strict_load (so_bytes (save_core XTable d)) = SOk (sdoc_table d).
+Proof. exact strict_load_table. Qed.
+
+Theorem C03_strict_core_stream :
+  forall d, strict_savable_core d -> small_file_core XStream d ->
+    strict_load (so_bytes (save_core XStream d)) = SOk (sdoc_stream d).
+Proof. exact strict_load_stream. Qed.
+
+(* non-vacuity of (3.2)/(3.3): a document of the domain whose max_id is below its largest object number,
+   with an integral real and a generation-2 stream *)
+Theorem C03_strict_example :
+  strict_savable ex_doc3 /\ small_file XTable ex_doc3 /\ small_file XStream ex_doc3 /\
+  (s_objects (sdoc_of XTable ex_doc3) =
+    [((1, 0), ODict [(K_Type, OName (bs "Catalog")); (bs "V", OInt 5)]); ((3, 2), OStream [(K_Length, OInt 3)] (bs "abc"))]) /\
+  (s_objects (sdoc_of XStream ex_doc3) = s_objects (sdoc_of XTable ex_doc3)) /\
+  (r_entries (hd (rev_table ex_doc3 0) (s_revs (sdoc_of XStream ex_doc3))) =
+    [(1, XUse 15 0); (3, XUse 52 2); (4, XUse 102 0)]).
+Proof. exact strict_example. Qed.
+
 Print Assumptions C03_accept_sound.
 Print Assumptions C03_chain_covers.
 Print Assumptions C03_chain_disjoint.
@@ -224,6 +309,15 @@ Print Assumptions C03_save_startxref_exact.
 Print Assumptions C03_save_tail_forward.
 Print Assumptions C03_save_offsets_exact.
 Print Assumptions C03_save_objects_all_listed.
-Print Assumptions C03_save_stream_length_partial.
+Print Assumptions C03_save_indirect_object.
+Print Assumptions C03_save_object_header.
 Print Assumptions C03_example_table.
 Print Assumptions C03_example_stream.
+Print Assumptions C03_object_rt.
+Print Assumptions C03_separator_suffices.
+Print Assumptions C03_strict.
+Print Assumptions C03_strict_fields.
+Print Assumptions C03_all_bytes_accounted.
+Print Assumptions C03_strict_core_table.
+Print Assumptions C03_strict_core_stream.
+Print Assumptions C03_strict_example.
